@@ -21,11 +21,13 @@ const (
 	rCalls            // controller calls issued
 	rRuns             // entries of the erroring routine (retry scenarios)
 	rTagsExact        // 1 if every new generation of the routine gets a fresh tag (plain RoutineContainer)
+	rCallsDone        // controller calls that have returned
 	rTag0      = 20   // +id: routine tag of instance id
 	rLeft0     = 60   // +id: instance id has returned
 	rClosed0   = 100  // +k: the channel returned by controller call k has closed
 	rState0    = 140  // +id: state argument of instance id
 	rCtx0      = 180  // +id: tag of the context instance id derives from
+	rFree0     = 220  // +id: 1+number of controller calls issued when instance id entered with a live context while no controller call was in progress
 )
 
 var errRoutine = errors.New("routine-error")
@@ -43,6 +45,10 @@ func instance(ctx context.Context, tag, outcome int, state int) error {
 	for k := tag + 1; k < 40 && vsched.Ctr(rTagsExact) != 0; k++ {
 		closedAtEntry[k] = vsched.Ctr(rClosed0+k) != 0 // sampled at the very entry, before any scheduling point
 	}
+	free := int64(0)
+	if c, d := vsched.Ctr(rCalls), vsched.Ctr(rCallsDone); c == d && vsched.CtxErrQuiet(ctx) == nil {
+		free = 1 + c
+	}
 	done := ctx.Done() // (a scheduling point) before the instance registers itself
 	id := int(vsched.CtrAdd(rEntered, 1)) - 1
 	if id >= 36 {
@@ -57,6 +63,9 @@ func instance(ctx context.Context, tag, outcome int, state int) error {
 	}
 	vsched.CtrSet(rTag0+id, int64(tag))
 	vsched.CtrSet(rState0+id, int64(state))
+	if outcome == iUntilCancelled {
+		vsched.CtrSet(rFree0+id, free)
+	}
 	a := vsched.CtrAdd(rActive, 1)
 	vsched.Observe(oEnter, int64(id), int64(tag), int64(state))
 	if a > 1 {
@@ -180,6 +189,7 @@ func doLetter(o *rcOps, l int, curCtx *context.Context, who string) {
 		supersedes = false
 		o.setState(int(vsched.Ctr(rState)))
 	}
+	vsched.CtrAdd(rCallsDone, 1)
 	if who != "" {
 		return // concurrent controllers: return-time oracle needs a single controller
 	}
@@ -223,6 +233,23 @@ func finalRoutineOracle(o *rcOps, stateVariant bool) {
 		}
 		if vsched.Ctr(rLeft0+last) != 0 {
 			// it returned by itself; fine
+		}
+	}
+}
+
+// spuriousCancelOracle (C14, single controller, instances that run until cancelled): an instance that
+// entered with a live context while no controller call was in progress, and after whose entry no
+// controller call was issued, can only have been cancelled by the container on its own (e.g. by a
+// stale retry timer): a running instance is restarted by nothing but a controller call.
+func spuriousCancelOracle() {
+	n := int(vsched.Ctr(rEntered))
+	for id := 0; id < n; id++ {
+		f := vsched.Ctr(rFree0 + id)
+		if f == 0 || f-1 != vsched.Ctr(rCalls) {
+			continue
+		}
+		if vsched.ChanClosed(vsched.GetCell(id).(<-chan struct{})) {
+			fail("C14.spurious-restart", "instance %d entered with a live context after the last controller call had returned, and its context was cancelled although no controller call was issued since", id)
 		}
 	}
 }
@@ -289,6 +316,7 @@ func routineWord(state bool, alphabet []int, length int, outcomes []int) func() 
 			doLetter(o, alphabet[vsched.Choose(len(alphabet))], &cur, "")
 		}
 		finalRoutineOracle(o, state)
+		spuriousCancelOracle()
 		o.clear()
 		vsched.Settle()
 		if a := vsched.Ctr(rActive); a != 0 {
@@ -348,7 +376,7 @@ func (b *constBackoff) Reset() {
 func init() {
 	basic := []int{lSetRoutine, lRestart, lCtxFreshRestart, lClear, lCtxSame}
 	eng.Register(&eng.Scenario{
-		Name: "routine-word3", Props: []string{"C04", "C05"}, ObsNames: stdObs,
+		Name: "routine-word3", Props: []string{"C04", "C05", "C14"}, ObsNames: stdObs,
 		Doc:   "RoutineContainer: ctx+routine set, then every word of length 3 over {SetRoutine(new), RestartRoutine, SetContext(fresh,true), ClearContext, SetContext(same,false)}; instances run until cancelled and return two steps later; overlap, wait-channel and supersession oracles",
 		Quick: eng.Bounds{PB: 2, Delay: true}, Thorough: eng.Bounds{PB: 3, Delay: true},
 		Body: routineWord(false, basic, 3, []int{iUntilCancelled}),
@@ -357,10 +385,10 @@ func init() {
 		Name: "routine-word4", Props: []string{"C04", "C05"}, ObsNames: stdObs,
 		Doc:   "RoutineContainer: as routine-word3 with words of length 4 over {SetRoutine(new), SetContext(fresh,false), ClearContext, RestartRoutine} (e.g. ClearContext; SetRoutine; SetRoutine; SetContext while the first instance is still returning)",
 		Quick: eng.Bounds{PB: 1, Delay: true}, Thorough: eng.Bounds{PB: 3, Delay: true},
-		Body:  routineWord(false, []int{lSetRoutine, lCtxFresh, lClear, lRestart}, 4, []int{iUntilCancelled}),
+		Body: routineWord(false, []int{lSetRoutine, lCtxFresh, lClear, lRestart}, 4, []int{iUntilCancelled}),
 	})
 	eng.Register(&eng.Scenario{
-		Name: "routine-word2-outcomes", Props: []string{"C04", "C05"}, ObsNames: stdObs,
+		Name: "routine-word2-outcomes", Props: []string{"C04", "C05", "C14"}, ObsNames: stdObs,
 		Doc:   "RoutineContainer: words of length 2, each instance's outcome chosen from {run until cancelled, return nil, return error}",
 		Quick: eng.Bounds{PB: 1}, Thorough: eng.Bounds{PB: 2},
 		Body: routineWord(false, append(basic, lCtxFresh), 2, []int{iUntilCancelled, iReturnNil, iReturnErr}),
@@ -373,7 +401,7 @@ func init() {
 		Body: routineWord(true, stateAlpha, 3, []int{iUntilCancelled}),
 	})
 	eng.Register(&eng.Scenario{
-		Name: "sroutine-word2", Props: []string{"C04", "C05"}, ObsNames: stdObs,
+		Name: "sroutine-word2", Props: []string{"C04", "C05", "C14"}, ObsNames: stdObs,
 		Doc:   "StateRoutineContainer: as sroutine-word3 with words of length 2 and a deeper schedule bound",
 		Quick: eng.Bounds{PB: 2, Delay: true}, Thorough: eng.Bounds{PB: 4, Delay: true},
 		Body: routineWord(true, stateAlpha, 2, []int{iUntilCancelled}),
@@ -466,7 +494,7 @@ func init() {
 		Body: routineTwo(false, []int{lCtxFresh, lClear, lCtxFresh}, []int{lSetRoutine, lRestart}, []int{iUntilCancelled}),
 	})
 	eng.Register(&eng.Scenario{
-		Name: "routine-retry", Props: []string{"C04", "C05"}, ObsNames: stdObs,
+		Name: "routine-retry", Props: []string{"C04", "C05", "C14"}, ObsNames: stdObs,
 		Doc:   "RoutineContainer with retry back-off (auto timers: the retry fires at any time): the first instance returns an error, later ones run until cancelled; controller issues words of length 2 over {SetRoutine(new), RestartRoutine, SetContext(fresh,true|false), SetContext(same,false), ClearContext}; the survivor must derive from the current context also when it was started by the retry timer",
 		Quick: eng.Bounds{PB: 1}, Thorough: eng.Bounds{PB: 2},
 		Body: func() {
@@ -479,6 +507,87 @@ func init() {
 				doLetter(o, alpha[vsched.Choose(len(alpha))], &cur, "")
 			}
 			finalRoutineOracle(o, false)
+			o.clear()
+			vsched.Settle()
+			if a := vsched.Ctr(rActive); a != 0 {
+				fail("C05.live-after-clear", "%d instance(s) still executing after ClearContext and quiescence", a)
+			}
+		},
+	})
+	eng.Register(&eng.Scenario{
+		Name: "routine-retry-replace", Props: []string{"C04", "C05", "C14"}, ObsNames: stdObs,
+		Doc:   "RoutineContainer with retry back-off, delay-bounded so that the retry timer's callback can be in flight (fired, not yet holding the lock) across one controller call out of {SetRoutine(new), RestartRoutine, SetContext(fresh,true), ClearContext, SetContext(same)}: whatever the retry callback then starts must be the current routine under the current context, and nothing is left running after ClearContext",
+		Quick: eng.Bounds{PB: 4, Delay: true}, Thorough: eng.Bounds{PB: 5, Delay: true},
+		Body: func() {
+			o := newRCRetry()
+			var cur context.Context
+			doLetter(o, lCtxFresh, &cur, "")
+			doLetter(o, lSetRoutine, &cur, "")
+			alpha := []int{lSetRoutine, lRestart, lCtxFreshRestart, lClear, lCtxSame}
+			doLetter(o, alpha[vsched.Choose(len(alpha))], &cur, "")
+			finalRoutineOracle(o, false)
+			spuriousCancelOracle()
+			o.clear()
+			vsched.Settle()
+			if a := vsched.Ctr(rActive); a != 0 {
+				fail("C05.live-after-clear", "%d instance(s) still executing after ClearContext and quiescence", a)
+			}
+		},
+	})
+	eng.Register(&eng.Scenario{
+		Name: "sroutine-exit-swap", Props: []string{"C04", "C05", "C14"}, ObsNames: stdObs,
+		Doc:   "StateRoutineContainer (with or without retry back-off, choice): the first instance returns by itself (nil or error, choice); then SwapValue(+10) or SetState(2) (choice), then one of {nothing, RestartRoutine, SetContext(fresh,true), SetStateRoutine(new)}: the instance alive once quiet was given GetState()",
+		Quick: eng.Bounds{PB: 2, Delay: true}, Thorough: eng.Bounds{PB: 4, Delay: true},
+		Body: func() {
+			var opts []routine.Option
+			if vsched.Choose(2) == 1 {
+				opts = append(opts, routine.WithBackoff(&constBackoff{}))
+			}
+			first := []int{iReturnErr, iReturnNil}[vsched.Choose(2)]
+			k := routine.NewStateRoutineContainer[int](func(a, b int) bool { return a == b }, opts...)
+			o := &rcOps{
+				setRoutine: func(tag int) <-chan struct{} {
+					ch, _, _ := k.SetStateRoutine(func(ctx context.Context, st int) error {
+						out := iUntilCancelled
+						if vsched.CtrAdd(rRuns, 1) == 1 {
+							out = first
+						}
+						return instance(ctx, tag, out, st)
+					})
+					return ch
+				},
+				restart:    k.RestartRoutine,
+				setContext: k.SetContext,
+				clear:      k.ClearContext,
+				setState: func(s int) <-chan struct{} {
+					ch, _, _, _ := k.SetState(s)
+					return ch
+				},
+				getState: k.GetState,
+				swapState: func(f func(int) int) int {
+					n, _, _, _, _ := k.SwapValue(f)
+					return n
+				},
+			}
+			var cur context.Context
+			doLetter(o, lCtxFresh, &cur, "")
+			doLetter(o, lState1, &cur, "")
+			doLetter(o, lSetRoutine, &cur, "")
+			if vsched.Choose(2) == 0 {
+				vsched.Settle() // the first instance has returned
+			}
+			if vsched.Choose(2) == 0 {
+				vsched.CtrAdd(rCalls, 1) // (a controller call like the others)
+				o.swapState(func(v int) int { return v + 10 })
+				vsched.CtrAdd(rCallsDone, 1)
+			} else {
+				doLetter(o, lState2, &cur, "")
+			}
+			if l := []int{-1, lRestart, lCtxFreshRestart, lSetRoutine}[vsched.Choose(4)]; l >= 0 {
+				doLetter(o, l, &cur, "")
+			}
+			finalRoutineOracle(o, true)
+			spuriousCancelOracle()
 			o.clear()
 			vsched.Settle()
 			if a := vsched.Ctr(rActive); a != 0 {
